@@ -491,8 +491,8 @@ def num_value(v):
     if z3.is_rational_value(v):
         return Fraction(v.numerator_as_long(), v.denominator_as_long())
     if z3.is_algebraic_value(v):
-        a = v.approx(30)
-        return Fraction(a.numerator_as_long(), a.denominator_as_long())
+        a = v.approx(20)
+        return Fraction(float(Fraction(a.numerator_as_long(), a.denominator_as_long())))     # (a double is all a replay can use)
     if z3.is_true(v):
         return True
     if z3.is_false(v):
@@ -670,8 +670,13 @@ class SBool:
         return f"SBool({s.e})"
 
 
-def _binop(op, rev=False):
+def _binop(op, rev=False, unit_op=None):
     def f(s, o):
+        if unit_op is not None and hasattr(o, "physical_type") and not hasattr(o, "unit"):
+            # shadow scalar (x) astropy unit -> object-dtype Quantity (astropy itself would try to cast to float)
+            import astropy.units as _u
+            q = _u.Quantity(np.array(s, dtype=object), _u.dimensionless_unscaled, dtype=object)
+            return unit_op(q, o)
         if _is_cplx(o):
             a, b = SComplex.of(s), SComplex.of(o)
             return op(b, a) if rev else op(a, b)
@@ -734,8 +739,8 @@ class SNum:
     __radd__ = _binop(lambda a, b: a + b, True)
     __sub__ = _binop(lambda a, b: a - b)
     __rsub__ = _binop(lambda a, b: a - b, True)
-    __mul__ = _binop(lambda a, b: a * b)
-    __rmul__ = _binop(lambda a, b: a * b, True)
+    __mul__ = _binop(lambda a, b: a * b, unit_op=lambda q, un: q * un)
+    __rmul__ = _binop(lambda a, b: a * b, True, unit_op=lambda q, un: q * un)
 
     def __truediv__(s, o):
         if _is_cplx(o):
@@ -846,6 +851,15 @@ class SNum:
         return SInt(z3.ToInt(r)) if both_int else SReal(r)
 
     def item(s):
+        return s
+
+    def copy(s):
+        return s
+
+    def __copy__(s):
+        return s
+
+    def __deepcopy__(s, memo):
         return s
 
 
